@@ -289,6 +289,30 @@ def bcd_encoder_exhausts(chk, enc, T):
                     "the digit loop can be left from bb%s without the running value having reached 0: values with more digits "
                     "than the loop has positions lose their leading digits silently" % bad, "only exit: k == 0",
                     (enc.blocks[bad[0]]["term"].get("sp") if bad else None) or enc.sp())
+    if n == 0:
+        # no digit loop: an encoder written as a chain over a constant range of byte positions
+        # (`(0..P).rev().map(|pos| value / 100^pos % 100)...collect()`): one output byte = two digits per position, so P
+        # positions hold every value of the type only if 100^P > MAX - a P rounded down drops the leading digits silently
+        from flow import Tracer
+        tr = Tracer(enc)
+        coll = [(bb, t) for bb, t in enc.calls() if callee(t).endswith("Iterator::collect") and t["dest"]["l"] == 0]
+        if len(coll) == 1:
+            v = tr.value(coll[0][1]["args"][0])
+            names = []
+            hops = 0
+            while v.kind == "call" and hops < 10:
+                hops += 1
+                names.append(callee(v.term).rsplit("::", 1)[-1])
+                v = tr.value(v.term["args"][0])
+            simple = all(x in ("map", "rev", "skip_while", "filter", "into_iter", "take_while", "inspect") for x in names) and "map" in names
+            if simple and v.kind == "agg" and v.rv.get("kind") == "adt" and str(v.rv.get("n", "")).endswith("ops::range::Range"):
+                lo, hi = tr.const_int(v.rv["ops"][0]), tr.const_int(v.rv["ops"][1])
+                bits = {"u8": 8, "u16": 16, "u32": 32, "u64": 64, "usize": 64, "u128": 128}.get(T)
+                if lo == 0 and hi is not None and bits:
+                    n += 1
+                    chk.require(100 ** hi > 2 ** bits - 1, "C17-a/encoder-exhausts-value", "<Bcd as Encoding<%s>>::encode" % T,
+                                "the encoder writes %d byte position(s) = %d digits, the type needs %d: the leading digits of large "
+                                "values are dropped silently" % (hi, 2 * hi, len(str(2 ** bits - 1))), "100^P > MAX", enc.sp())
     return n
 
 
